@@ -262,6 +262,17 @@ fn gen(rng: &mut Rng, _i: u64) -> String {
 	let tight = rng.chance(1, 2);
 	let mut wr = Writer { out: Vec::new(), tight };
 	wr.info(&vi);
+	if rng.chance(1, 16) {
+		// a complete, well-formed resource behind 1..4 leading zero words (or one junk word): the data begins with a block
+		// of wLength 0 - nothing behind it is a VS_VERSIONINFO at the alignment the parser established, and a parser that
+		// skipped ahead to it would cast its VS_FIXEDFILEINFO at an address that is 2 mod 4 for an odd number of words
+		let k = rng.range(1, 4) as usize;
+		let mut ws: Vec<u16> = vec![0u16; k];
+		if rng.chance(1, 6) { ws[0] = 2; }
+		ws.extend_from_slice(&wr.out);
+		let bytes: Vec<u8> = ws.iter().flat_map(|w| w.to_le_bytes().to_vec()).collect();
+		return format!("raw off={} data={} mask={} q={}", 4 * rng.below(4), hex(&bytes), mask, gen_queries(rng, Some(&vi)));
+	}
 	let len = wr.out.len();
 	let mut muts: Vec<String> = Vec::new();
 	if rng.chance(3, 10) {
